@@ -657,9 +657,51 @@ def record_name_tables(ctx, prog, rule):
 # ----------------------------------------------------------------------------------------
 # prototype type attributes (C19-R2, C04)
 
+def float_limit_emission(ctx, prog, rule):
+    """a Single / Double prototype record carries `minimum` exactly when its min is Some and `maximum` exactly when its
+    max is Some, independently of each other: decided per variant and per presence combination on the pruned flow graph
+    of serialize_record_type (a one-sided limit is a legal prototype and has to come back)"""
+    from simple_rules import _assume_option, assume_cfg, leaf_name
+    f = prog.fn("record::serialize_record_type")
+    R = Resolver(f)
+    adt = prog.adt("record::RecordDataType")
+    vidx = {v["name"]: i for i, v in enumerate(adt["variants"])}
+    # emission sites: appends whose text starts an attribute
+    sites = {"minimum": [], "maximum": []}
+    for bi, t in f.calls(lambda c, t: c.endswith("AddAssign<&str>>::add_assign") or c.endswith("String::push_str")):
+        try:
+            toks = xmlgen.sval(prog, f, R.operand(t["args"][1]))
+        except Exception:
+            continue
+        lits = " ".join(tk[1] for tk in toks if tk[0] == "lit")
+        for a in sites:
+            if (" %s=" % a) in lits:
+                sites[a].append(bi)
+    n = 0
+    for var in ("Single", "Double"):
+        if not sites["minimum"] or not sites["maximum"]:
+            ctx.ob(rule, "float-limit-emission/%s" % var, None, "no separate appends of minimum / maximum found in serialize_record_type (%s)" % {k: len(v) for k, v in sites.items()})
+            continue
+        gv = assume_cfg(f, [(lambda s_: strip(s_) == ("param", 1) or leaf_name(s_) == "arg1", vidx[var])])
+        bad = []
+        for smin in (0, 1):
+            for smax in (0, 1):
+                go = _assume_option(f, {"arg1.%s.min" % var: smin, "arg1.%s.max" % var: smax})
+                g = {b: [x for x in ss if x in go.get(b, [])] for b, ss in gv.items()}
+                r = reach(g, [0])
+                got_min = any(b in r for b in sites["minimum"])
+                got_max = any(b in r for b in sites["maximum"])
+                n += 1
+                if got_min != bool(smin) or got_max != bool(smax):
+                    bad.append("min %s / max %s -> minimum %s, maximum %s" % ("Some" if smin else "None", "Some" if smax else "None", "written" if got_min else "not written", "written" if got_max else "not written"))
+        ctx.ob(rule, "float-limit-emission/%s" % var, not bad, "%s: minimum is written exactly when min is Some and maximum exactly when max is Some%s" % (var, ("; VIOLATED: " + "; ".join(bad)) if bad else ""))
+    ctx.floor(rule, "presence combinations of float limits decided", n, 8)
+
+
 def type_attributes(ctx, prog, rule):
     f = prog.fn("record::serialize_record_type")
     ctx.fn_seen(f)
+    float_limit_emission(ctx, prog, rule)
     R = Resolver(f)
     ret = R.local(0)
     alts = ret[1] if ret[0] == "phi" else (ret,)
